@@ -38,6 +38,7 @@ func init() {
 	probes["O26"] = probeO26
 	probes["O27"] = probeO27
 	probes["O28"] = probeO28
+	probes["O29"] = probeO29
 	probes["O23"] = probeO23
 	probes["O24"] = probeO24
 }
@@ -432,5 +433,14 @@ func probeO28() (bool, string) {
 		var m map[string]interface{}
 		err, err2 := c.Unpack(p), c.Unpack(m)
 		return err == nil || err2 == nil, fmt.Sprint(err, err2)
+	})
+}
+
+func probeO29() (bool, string) {
+	return guard(func() (bool, string) {
+		c, _ := ucfg.NewFrom(map[string]interface{}{"list": []interface{}{"x", "y"}, "a": "${list}", "b": "${list}"}, sepVar...)
+		var t struct{ A, B []string }
+		err := c.Unpack(&t, sepVar...)
+		return err != nil || len(t.B) != 2, fmt.Sprint(err, t)
 	})
 }
